@@ -327,6 +327,14 @@ func build(tier string) []*vexp.Scenario {
 			out = append(out, scenario(params{askers: 1, perAsk: per, replier: rp, timeout: time.Nanosecond, kill: "none", mix: true}, bounds))
 		}
 	}
+	// ... the same with the operations of packages actor and future as switch points: an Ask completing on its own (its 1 ns timer)
+	// in the middle of the sweep that fails the dying asker's pending Asks
+	for _, per := range []int{2, 3} {
+		per := per
+		out = append(out, vexp.Split(6, func() *vexp.Scenario {
+			return vexp.Fine(scenario(params{askers: 1, perAsk: per, replier: "never", timeout: time.Nanosecond, kill: "asker", mix: true}, []int{0, 1, 2}), "vivid/internal/actor.", "vivid/internal/future.")
+		})...)
+	}
 	for _, to := range []time.Duration{time.Second, 0} {
 		out = append(out, scenario(params{askers: 1, perAsk: 1, replier: "slow", timeout: to, kill: "asker-respawn"}, bounds))
 		out = append(out, scenario(params{askers: 1, perAsk: 2, replier: "slow", timeout: to, kill: "asker-respawn"}, bounds))
